@@ -508,14 +508,14 @@ PROPERTIES['C10'] = {
     # with statistics compiled out as well (a free that slipped inside a statistics block vanishes there)
     'configs': lambda tier: [B, D, extract.flip(B, 'nostats')] if tier == 'quick' else extract.all_configs(),
     'rules': [dict(r_, configs=_with_stats) for r_ in [R(acc.acc1), R(acc.acc2), R(acc.acc4), R(acc.acc5), R(acc.acc6), R(acc.own1), R(exc.exc2), R(lambda cfg: nodes.mut1(cfg, parts=('count', 'reclaim', 'foreach'))), R(acc.acc7), R(olcrules.lock6b), R(slot.slot1),
-              R(lambda cfg: qsbr.q_rotation(cfg, parts=('3',))), R(lambda cfg: qsbr.q_orphans(cfg, parts=('7', '8'))), R(qsbr.q_tail_link), R(qsbr.q_sink), R(qsbr.q_list_rmw), R(acc.acc8)]] + [R(exc.del1)],
+              R(lambda cfg: qsbr.q_rotation(cfg, parts=('3',))), R(lambda cfg: qsbr.q_orphans(cfg, parts=('7', '8'))), R(qsbr.q_tail_link), R(qsbr.q_sink), R(qsbr.q_list_rmw), R(acc.acc8), R(mutex.mx7)]] + [R(exc.del1)],
     'multi_rules': [R(lambda ctx, tier: simd_axis_sse(ctx, tier, fns=(slot.slot1,)))],
     'technique': 'static analysis: constant-chain and decision-expression rules on the size classes, counter who-may-write discipline, per-path create/account matching, loop-bound descriptors of subtree deletion, ownership linearity dataflow',
     'explanation': 'The local generators of "shape, statistics and memory accounting are functions of the key set", for db and olc_db, both key kinds: '
                    'ACC-1 the size-class constants form the chain 2-4 / 5-16 / 17-48 / 49-256, a node grows exactly when its count equals the capacity of ITS OWN class into the NEXT class, shrinks exactly at the minimum size of its own class into the PREVIOUS class, a two-child node collapses, splits create I4; '
                    'ACC-2 the growth / shrink counters are written only by account_growing_inode / account_shrinking_inode and only incremented, and along every non-restart path of every helper instantiation the nodes created-and-published equal the growth accounted for (class by class), a dissolved node is accounted as shrunk exactly once, key_prefix_splits moves only in the inserts; '
                    'ACC-4 clear() / destruction delete the whole subtree of a non-null root - every child slot of every node class (loop bounds: children_count for the dense classes, 48 resp. 256 slots for the indexed ones) - then reset root, memory use and the per-class counters; '
-                   'ACC-6 every decrement (inode count per class, leaf count, memory use) is the exact mirror image of its increment - same slot, same amount - and the slots of the five node classes are distinct; ACC-5 olc_db counters are updated by one atomic read-modify-write, never by a store computed from a load of the same counter; OWN-1 a node pointer released from its unique_ptr is published or re-owned on every path to every return (restart returns included), so nothing stays allocated and counted without being in the tree; EXC-2 allocation and accounting move together in factories and deleters; SLOT-1 an I48 really holds 48 children in the AVX2 and in the SSE4.2 build (the free-slot search finds the first null slot for every occupancy; a search that never sees some slots free makes the node overflow its array instead of growing at 48); the exactly-once rules of C06 (Q-3, Q-7, Q-8, Q-13, Q-15/16, Q-19) - memory retired by olc_db threads that have since left is what \"awaits deferred reclamation\", and it is all returned only if no orphaned request is dropped; ACC-7 the per-class template accessors use the slot of their own class (node_counts[T], growing / shrinking_inode_counts[T - 1]), getters and account_* alike; LOCK-6b the reclaiming deleters of olc_db hand QSBR the node they were given with the size of its class (sizeof of the node class, not of a pointer; the leaf size read before the hand-over) - the deferred-reclamation backlog is what makes "bytes held = reported use + awaiting reclamation" true; MUT-1 the per-class mutators keep children_count exact (add: + 1, remove: - 1, stored once on every path - the grow / shrink thresholds of ACC-1 are read from it), remove hands the removed leaf to reclamation exactly once (the slot named by its index parameter; I48 through its pointer helpers), I256::for_each_child - the teardown walk - calls its callback. ACC-8 basic_leaf::get_size() - what the leaf deleters subtract - is the same linear function of the stored key and value sizes as compute_size() - what make_db_leaf_ptr allocates and adds - with every intermediate sum at a width that holds it (two 32-bit fields sum to 33 bits). DEL-1 each of the four node deleters hands the pointer it was given to free_aligned resp. on_next_epoch_deallocate exactly once on every path - checked in the statistics-off configurations as well (the other rules of this property need the counters and run where they exist).',
+                   'ACC-6 every decrement (inode count per class, leaf count, memory use) is the exact mirror image of its increment - same slot, same amount - and the slots of the five node classes are distinct; ACC-5 olc_db counters are updated by one atomic read-modify-write, never by a store computed from a load of the same counter; OWN-1 a node pointer released from its unique_ptr is published or re-owned on every path to every return (restart returns included), so nothing stays allocated and counted without being in the tree; EXC-2 allocation and accounting move together in factories and deleters; SLOT-1 an I48 really holds 48 children in the AVX2 and in the SSE4.2 build (the free-slot search finds the first null slot for every occupancy; a search that never sees some slots free makes the node overflow its array instead of growing at 48); the exactly-once rules of C06 (Q-3, Q-7, Q-8, Q-13, Q-15/16, Q-19) - memory retired by olc_db threads that have since left is what \"awaits deferred reclamation\", and it is all returned only if no orphaned request is dropped; ACC-7 the per-class template accessors use the slot of their own class (node_counts[T], growing / shrinking_inode_counts[T - 1]), getters and account_* alike; LOCK-6b the reclaiming deleters of olc_db hand QSBR the node they were given with the size of its class (sizeof of the node class, not of a pointer; the leaf size read before the hand-over) - the deferred-reclamation backlog is what makes "bytes held = reported use + awaiting reclamation" true; MUT-1 the per-class mutators keep children_count exact (add: + 1, remove: - 1, stored once on every path - the grow / shrink thresholds of ACC-1 are read from it), remove hands the removed leaf to reclamation exactly once (the slot named by its index parameter; I48 through its pointer helpers), I256::for_each_child - the teardown walk - calls its callback. MX-7 every statistics getter of mutex_db forwards to the getter of the same name (and node class) of the tree it wraps - that is all the statistics of the mutex index are. ACC-8 basic_leaf::get_size() - what the leaf deleters subtract - is the same linear function of the stored key and value sizes as compute_size() - what make_db_leaf_ptr allocates and adds - with every intermediate sum at a width that holds it (two 32-bit fields sum to 33 bits). DEL-1 each of the four node deleters hands the pointer it was given to free_aligned resp. on_next_epoch_deallocate exactly once on every path - checked in the statistics-off configurations as well (the other rules of this property need the counters and run where they exist).',
     'decides': 'grow / shrink / collapse thresholds and target classes; counter discipline; completeness of subtree deletion; no leak of released nodes; allocation <-> accounting pairing',
     'does_not_decide': 'history independence of the shape as a theorem over all operation histories (it decides the local rules that generate it)',
 }
